@@ -388,6 +388,10 @@ func (st *State) enterBlock() bool {
 		}
 		// back edge: prove invariants, decreases; end path
 		le := fr.loopsSeen[fr.block]
+		if fr.parent == nil && ls != nil && (len(ls.Invariants) > 0 || len(ls.Steps) > 0) {
+			// reachability canary: some path must go round the loop with a satisfiable path condition
+			st.u.addObl(st, "canary", pfx+"/reach:backedge", fr.block.Instrs[0].Pos(), TFalse, true)
+		}
 		if ls != nil {
 			for _, c := range ls.Invariants {
 				env := st.newEnv(fr, nil)
@@ -950,6 +954,14 @@ func (st *State) wrap(t Term, T types.Type) Term {
 	return Mod(t, Term{pow2(bits), SInt})
 }
 
+// strRank: order embedding of string content keys into the integers (injective); see DESIGN.md, assumptions
+func (st *State) strRank(key Term) Term {
+	e := st.eng()
+	e.declare("strrank", "(declare-fun strrank (Int) Int)\n(assert (forall ((x Int) (y Int)) (! (=> (= (strrank x) (strrank y)) (= x y)) :pattern ((strrank x) (strrank y)))))")
+	e.assumes["strings are ordered through an injective order embedding (strrank) of their content keys into the integers; the empty string is not known to be least"] = true
+	return app(SInt, "strrank", key)
+}
+
 func (st *State) binop(op token.Token, a, b Value, resT types.Type, pos token.Pos) Value {
 	e := st.eng()
 	T := a.T
@@ -968,7 +980,17 @@ func (st *State) binop(op token.Token, a, b Value, resT types.Type, pos token.Po
 		case token.ADD:
 			return mk(st.concat(a.Tm, b.Tm))
 		case token.LSS, token.LEQ, token.GTR, token.GEQ:
-			return mk(st.uf("strcmp_"+op.String(), SBool, a.Tm, b.Tm))
+			// lexicographic order through an order embedding of the content keys: strrank is injective
+			ra, rb := st.strRank(st.strKey(a.Tm)), st.strRank(st.strKey(b.Tm))
+			switch op {
+			case token.LSS:
+				return mk(Lt(ra, rb))
+			case token.LEQ:
+				return mk(Le(ra, rb))
+			case token.GTR:
+				return mk(Gt(ra, rb))
+			}
+			return mk(Ge(ra, rb))
 		}
 	}
 	if isFloat(T) {
@@ -1568,6 +1590,11 @@ func (u *Unit) checkPost(st *State, res []Value, pos token.Pos) {
 	fr := st.frame
 	if u.spec == nil {
 		return
+	}
+	// reachability canary: at least one path must reach a return with a satisfiable path condition (a contract or
+	// engine fact that contradicts the context would otherwise prove everything after it)
+	if u.houdini == nil && u.spec.Flags["noreturn"] == "" {
+		u.addObl(st, "canary", "reach:return", pos, TFalse, true)
 	}
 	// ghost assignments performed at return (before the postconditions are checked)
 	for _, gs := range u.spec.GhostSets {
